@@ -1836,3 +1836,64 @@ where
 
     Ok(all_mmcs_op_ids)
 }
+
+/// Verification hooks (guard: `--cfg p3_recursion_verif`): public wrappers around private
+/// arithmetic gadgets so that an external harness can drive them over their full domain.
+#[cfg(p3_recursion_verif)]
+pub mod verif_hooks {
+    use super::*;
+
+    pub fn evaluate_polynomial<EF: Field>(
+        builder: &mut CircuitBuilder<EF>,
+        coefficients: &[Target],
+        point: Target,
+    ) -> Target {
+        super::evaluate_polynomial(builder, coefficients, point)
+    }
+
+    pub fn compute_final_query_point<F, EF>(
+        builder: &mut CircuitBuilder<EF>,
+        index_bits: &[Target],
+        log_max_height: usize,
+        total_bits_consumed: usize,
+        powers_of_g: &[Target],
+    ) -> Target
+    where
+        F: Field + TwoAdicField,
+        EF: ExtensionField<F>,
+    {
+        super::compute_final_query_point::<F, EF>(
+            builder,
+            index_bits,
+            log_max_height,
+            total_bits_consumed,
+            powers_of_g,
+        )
+    }
+
+    pub fn precompute_evaluation_points<F, EF>(
+        builder: &mut CircuitBuilder<EF>,
+        unique_heights_desc: &[usize],
+        index_bits: &[Target],
+        log_global_max_height: usize,
+    ) -> BTreeMap<usize, Target>
+    where
+        F: Field + TwoAdicField,
+        EF: ExtensionField<F>,
+    {
+        super::precompute_evaluation_points::<F, EF>(
+            builder,
+            unique_heights_desc,
+            index_bits,
+            log_global_max_height,
+        )
+    }
+
+    pub fn circuit_exp_by_constant<EF: Field>(
+        builder: &mut CircuitBuilder<EF>,
+        base: Target,
+        n: usize,
+    ) -> Target {
+        super::circuit_exp_by_constant(builder, base, n)
+    }
+}
